@@ -19,7 +19,7 @@ enum { FV_OP_END = 0, FV_OP_LESS, FV_OP_MORE, FV_OP_UNPUT, FV_OP_INPUT, FV_OP_RE
        FV_OP_SCANSTRING, FV_OP_SCANBUFFER, FV_OP_SWITCH, FV_OP_PUSHBUF, FV_OP_POPBUF, FV_OP_FLUSH,
        FV_OP_DELETE, FV_OP_RESTART, FV_OP_CREATE, FV_OP_DESTROY, FV_OP_SETLINENO, FV_OP_GETLINENO,
        FV_OP_NEWYYIN, FV_OP_START, FV_OP_ATBOL, FV_OP_ECHO, FV_OP_TERMINATE, FV_OP_FLUSHCUR,
-       FV_OP_GRAB };
+       FV_OP_GRAB, FV_OP_CONT, FV_OP_INCLUDE_END };
 
 #ifdef __cplusplus
 extern "C" {
@@ -35,7 +35,7 @@ int  fv_wrap_next(void);     /* -1: stop; else source id to continue with */
 void *fv_alloc(size_t n);
 void *fv_realloc(void *p, size_t n);
 void fv_free(void *p);
-extern int fv_bol_needed, fv_has_lineno, fv_default_rule;
+extern int fv_bol_needed, fv_has_lineno, fv_default_rule, fv_cont;
 extern long fv_last_leng, fv_cur_prefix; extern int fv_more_set;
 #ifdef FV_BACKEND_R
 #define FV_PROTO_LAST , void *yyscanner
@@ -111,6 +111,7 @@ extern int fv_bufsize;           /* set from the case file: YY_BUF_SIZE is a run
         case FV_OP_REJECT: FV_DO_REJECT; break; \
         case FV_OP_RETURN: return (int) a_; \
         case FV_OP_TERMINATE: yyterminate(); \
+        case FV_OP_CONT: fv_cont = 1; break; \
         FV_COMMON_OPS(a_, b_) \
         default: fv_buffer_op(op_, a_, b_ FV_AL); break; \
         } }
@@ -119,6 +120,6 @@ extern int fv_bufsize;           /* set from the case file: YY_BUF_SIZE is a run
 /* the default rule's action (ECHO) is observed like any other action */
 /* it is not user code, so it takes no script */
 #define yyecho() { fv_default_rule = 1; FV_MATCH(YY_NUM_RULES); }
-#define ACT_EOF(k) { fv_log_eof(yystart()); FV_OPS(); yyterminate(); }
+#define ACT_EOF(k) { fv_log_eof(yystart()); fv_cont = 0; FV_OPS(); if (!fv_cont) yyterminate(); fv_cont = 0; }
 
 #endif
